@@ -50,6 +50,9 @@ UntypedTo == {[to |-> NoType(BaseV(g, 4)), from |-> FullOf(g)] : g \in CopyTypes
 EmptyOf(kind) == CASE kind = "item" -> [k |-> "nil", as |-> "Object"] [] kind = "items" -> ListOf(<<>>) [] kind = "nlv" -> Nlv(<<>>)
 EmptyFrom == UNION {{[to |-> With(BaseV(g, 1), r.t, ValA(r)), from |-> With(BaseV(g, 1), r.t, EmptyOf(r.k))]
                      : r \in {x \in OwnRows(g) : x.k \in {"item", "items", "nlv"}}} : g \in {"Object", "Actor", "OrderedCollection", "CollectionPage"}}
+             \* an item-valued property holding an EMPTY LIST (what "attachment":[] and "icon":[null] decode to)
+             \cup UNION {{[to |-> With(BaseV(g, 1), r.t, ValA(r)), from |-> With(BaseV(g, 1), r.t, ListOf(<<>>))]
+                     : r \in {x \in OwnRows(g) : x.k = "item"}} : g \in {"Object", "Actor", "OrderedCollection", "CollectionPage"}}
 \* both sides untyped: the struct says what kind of value it is
 BothUntyped == {[to |-> NoType(BaseV(g, 4)), from |-> NoType(FullOf(g))] : g \in CopyTypes}
 \* the same item property set on both sides in different shapes of ONE identity (a bare IRI and the full object with that id):
